@@ -130,6 +130,18 @@ def observedSig (impl : String) : Bytes :=
 
 def step (st : Driver.Auth.St) (op : List String) (impl : String) : Driver.Auth.St × String :=
   match op with
+  | ["cl.idbits", len, orHex, andHex, distinct, badKeys] =>
+    -- freshness of credential ids, statistically: over the registrations of one batch no byte position is constant
+    -- zero or constant 0xFF, and no id repeats (a false alarm has probability below 2^-150)
+    match len.toNat?, bytesOfHex orHex, bytesOfHex andHex with
+    | some n, some o, some a =>
+      let v := if o.length != n || a.length != n then "fail:credential-id-not-of-the-configured-length"
+        else if o.any (· == 0) || a.any (· == 255) then "fail:credential-ids-have-a-constant-byte"
+        else if distinct != "1" then "fail:credential-id-repeated"
+        else if badKeys != "0" then "fail:attested-key-coordinates-not-32-bytes-or-without-a-der-form"
+        else "ok"
+      (st, impl ++ "\t" ++ v)
+    | _, _, _ => (st, "bad-op\tna")
   | "cl.reg" :: k :: sc :: dm :: al :: asc :: os :: rp :: user :: chal :: algs :: excl :: sel :: ext :: cd :: uv :: faults :: draws :: _ =>
     match parseOrigin [k, sc, dm, al, asc, os], (if rp = "NONE" then some none else (natStr rp).map some), bytesOfHex user, bytesOfHex chal,
           parseAlgs algs, parseIds excl, parseSel sel, parseCExt ext, parseCd cd, parseUv uv, parseFaults faults, parseDraws draws with
